@@ -86,6 +86,13 @@ def cases(tier, seed):
         if g[3] == "structured":
             yield f"C10|bp|tree|{g[0]}", {"kind": "bp", "codes": [g], "tier": tier}
     yield "C10|bp|bundled3x6", {"kind": "bp", "codes": [("H=doc3x6", 6, [0b001011, 0b010110, 0b100101], "clean-only")], "tier": tier}
+    # redundant checks (more checks than code bits, cycles): clean input still decodes clean
+    red = [("H=rep6-7checks", 6, [0b000011, 0b000110, 0b000101, 0b011000, 0b110000, 0b101000, 0b001100]),
+           ("H=rep4-6checks", 4, [0b0011, 0b0101, 0b0110, 0b1001, 0b1010, 0b1100]),
+           ("H=ham7x7", 7, [0b0011011, 0b0101101, 0b0110110, 0b1001110, 0b1010101, 0b1100011, 0b1111000]),
+           ("H=spc3-dup", 3, [0b111, 0b111, 0b111, 0b111])]
+    for nm, n, rows in red:
+        yield f"C10|bp|redundant|{nm}", {"kind": "bp", "codes": [(nm, n, rows, "clean-only")], "tier": tier}
     for d in range(2, 6):
         yield f"C10|minsum-rule|deg={d}", {"kind": "minsum-rule", "deg": d, "tier": tier}
     for k in range(1, (8 if q else 10) + 1):
